@@ -43,6 +43,10 @@ CHECKS = {
          "Seeded search over byte streams and chunkings: grammar-guided LUBA and SCI streams (valid frames of every type, every value of the length byte, corrupted checksums, truncated frames, noise with embedded start bytes) with injected line faults (bit flips, dropped / duplicated / inserted bytes) are delivered to fresh real protocol objects under four chunkings; queue contents (answers, confirmations, info/settings, observed commands with their device-type context) must equal the items of an independent reference deframer for every chunking, no exception may leave data_received, and a well-formed probe frame after the stream must still be accepted.",
          "Trusted base: the reference grammar of DESIGN.md C19 (sim/refs/deframers.py); streams containing checksum-valid frames malformed for their type are set aside as the property prescribes.",
          "deterministic simulation of a faulty serial line (seeded streams, line faults, re-chunking) against a reference deframer", "4"),
+ "C08": ("busim", "exploration",
+         "Seeded search: the real QueryDeviceTypes / QueryGroups / SetGroups generators are stepped against executable IEC 62386-102 gear models (device-type enumeration state machine, groups, send-twice acceptance, collisions between units on one address) with answer loss / framing errors at seeded command indices and adversarial, endlessly repeating answer streams; oracle: returned data equals the model's state (or DALISequenceError once disturbed), termination within a step cap, final group membership of every addressed unit, untouched bystanders, minimal number of changes for readable destinations.",
+         "Trusted base: gear model of DESIGN.md appendix A.1 (sim/busim.py), written independently of dali/tests/fakes.py.",
+         "deterministic co-simulation of sequence and bus units with fault injection on answers (seeded scenarios)", "4"),
 }
 
 PLANNED = {}
